@@ -16,6 +16,7 @@
 package conch
 
 import (
+	"context"
 	"errors"
 	"fmt"
 	"sort"
@@ -32,7 +33,7 @@ import (
 
 // Op is one store operation.
 type Op struct {
-	Kind  string            // get put del batch seek persist persist2
+	Kind  string            // get put del batch seek seekasync persist persist2
 	Key   string            // get put del
 	Val   string            // put
 	Batch map[string]string // batch: value "" = delete
@@ -57,12 +58,12 @@ func (o Op) String() string {
 		}
 		sort.Strings(ks)
 		return "batch{" + strings.Join(ks, ",") + "}"
-	case "seek":
+	case "seek", "seekasync":
 		d := ""
 		if o.Back {
 			d = ",backwards"
 		}
-		return fmt.Sprintf("seek(%q,start=%q%s)", o.Pfx, o.Start, d)
+		return fmt.Sprintf("%s(%q,start=%q%s)", o.Kind, o.Pfx, o.Start, d)
 	}
 	return o.Kind
 }
@@ -80,6 +81,22 @@ type Scenario struct {
 }
 
 const nf = "<notfound>"
+
+// writesAndFlushes: some thread writes to the layer and some thread flushes it.
+func (sc *Scenario) writesAndFlushes() bool {
+	w, f := false, false
+	for _, ops := range sc.Threads {
+		for _, o := range ops {
+			switch o.Kind {
+			case "put", "del", "batch":
+				w = true
+			case "persist", "persist2":
+				f = true
+			}
+		}
+	}
+	return w && f
+}
 
 // ---- model -------------------------------------------------------------------------
 
@@ -155,7 +172,7 @@ func Model(init map[string]string) porcupine.Model {
 					v = nf
 				}
 				return v == out, state
-			case "seek":
+			case "seek", "seekasync":
 				return seekModel(parseState(state.(string)), o) == out, state
 			case "put":
 				m := parseState(state.(string))
@@ -190,6 +207,21 @@ type rec struct {
 	call   int64
 	ret    int64
 	out    string
+	// seekasync: the moment the channel was known to be drained (the lower
+	// store is read by the scan goroutine up to then); ret is the return of the
+	// SeekAsync CALL - the layer's own content is fixed there.
+	drained int64
+}
+
+// asyncScan is a SeekAsync whose channel is being drained by a free-running
+// helper goroutine (it only receives; it touches nothing of the subject).
+type asyncScan struct {
+	client int
+	op     Op
+	call   int64
+	ret    int64
+	res    []string
+	done   chan struct{}
 }
 
 type harness struct {
@@ -200,6 +232,7 @@ type harness struct {
 	mu    sync.Mutex
 	hist  []rec
 	univ  []string
+	async []*asyncScan
 }
 
 // universe: every key the scenario mentions.
@@ -282,6 +315,24 @@ func (h *harness) do(client int, o Op) {
 			return true
 		})
 		out = strings.Join(res, ",")
+	case "seekasync":
+		// The call is the event: SeekAsync snapshots the layer it is called on before it
+		// returns; its goroutine (a logical thread of its own under the scheduler: the
+		// overlay turns the go statement into sched.Go) scans the lower store later. The
+		// unbuffered channel is real, so a free-running helper receives - the scan
+		// goroutine never waits for a parked logical thread.
+		ch := h.s.SeekAsync(context.Background(), storage.SeekRange{Prefix: h.key(o.Pfx), Start: []byte(o.Start), Backwards: o.Back}, false)
+		a := &asyncScan{client: client, op: o, call: call, ret: h.clock.Add(1), done: make(chan struct{})}
+		go func() {
+			for e := range ch {
+				a.res = append(a.res, string(e.Key[1:])+"="+string(e.Value))
+			}
+			close(a.done)
+		}()
+		h.mu.Lock()
+		h.async = append(h.async, a)
+		h.mu.Unlock()
+		return
 	case "persist":
 		if _, err := h.s.Persist(); err != nil {
 			out = "error:" + err.Error()
@@ -295,7 +346,7 @@ func (h *harness) do(client int, o Op) {
 	}
 	ret := h.clock.Add(1)
 	h.mu.Lock()
-	h.hist = append(h.hist, rec{client, o, call, ret, out})
+	h.hist = append(h.hist, rec{client: client, op: o, call: call, ret: ret, out: out})
 	h.mu.Unlock()
 }
 
@@ -352,9 +403,13 @@ func Run(sc *Scenario, r *sched.Run) *Outcome {
 		var weak []porcupine.Operation
 		orderOK := true
 		for i, x := range hist {
-			if x.op.Kind != "seek" {
+			if x.op.Kind != "seek" && x.op.Kind != "seekasync" {
 				weak = append(weak, ops[i])
 				continue
+			}
+			wret := x.ret
+			if x.op.Kind == "seekasync" {
+				wret = x.drained
 			}
 			got := map[string]string{}
 			prev := ""
@@ -381,7 +436,7 @@ func Run(sc *Scenario, r *sched.Run) *Outcome {
 				if !ok {
 					v = nf
 				}
-				weak = append(weak, porcupine.Operation{ClientId: 100 + 10*i + j, Input: Op{Kind: "get", Key: k}, Call: x.call, Output: v, Return: x.ret})
+				weak = append(weak, porcupine.Operation{ClientId: 100 + 10*i + j, Input: Op{Kind: "get", Key: k}, Call: x.call, Output: v, Return: wret})
 			}
 			for k := range got {
 				found := false
@@ -402,7 +457,7 @@ func Run(sc *Scenario, r *sched.Run) *Outcome {
 		// observation: per-client outputs in program order
 		by := map[int][]string{}
 		for _, x := range hist {
-			if x.op.Kind == "get" || x.op.Kind == "seek" {
+			if x.op.Kind == "get" || x.op.Kind == "seek" || x.op.Kind == "seekasync" {
 				by[x.client] = append(by[x.client], x.op.String()+"->"+x.out)
 			}
 			if strings.HasPrefix(x.out, "error:") {
@@ -434,7 +489,12 @@ func Run(sc *Scenario, r *sched.Run) *Outcome {
 				// a committed key missing or a stale value, even with Seek read key by key
 				out.Fails = append(out.Fails, sched.Fail{Key: "not-linearizable-per-key:" + sc.Name, Msg: "no linearization even when every Seek is taken as a non-atomic scan (key missing / stale value): " + msg})
 			}
-			if res == porcupine.Illegal && resWeak == porcupine.Ok {
+			if res == porcupine.Illegal && resWeak == porcupine.Ok && !sc.writesAndFlushes() {
+				// The one known way to a mixed result needs a write to the layer AND its flush between
+				// the layer's snapshot and the lower scan. Without a writer or without a flush every
+				// range scan is an atomic read; a SeekAsync is one AT ITS CALL (interval = the call).
+				out.Fails = append(out.Fails, sched.Fail{Key: "scan-not-for-the-moment-of-the-call:" + sc.Name, Msg: "no linearization with every range scan as an atomic read within its call (SeekAsync: within the SeekAsync call itself; the drain comes later), although no write+flush pair exists that could have reached the lower store: " + msg})
+			} else if res == porcupine.Illegal && resWeak == porcupine.Ok {
 				// only the atomic-range-read reading of Seek fails: values of different moments in one result (half of a batch)
 				out.Fails = append(out.Fails, sched.Fail{Key: "seek-not-atomic:" + sc.Name, Msg: "no linearization with Seek as an atomic range read (one result mixes the states of different moments: half of a batch / of a write sequence): " + msg})
 			}
@@ -477,7 +537,9 @@ func Run(sc *Scenario, r *sched.Run) *Outcome {
 					r.Logf("%s: %s ...", n, o)
 				}
 				h.do(client, o)
-				if r != nil {
+				if r != nil && o.Kind == "seekasync" {
+					r.Logf("%s: %s returned its channel", n, o)
+				} else if r != nil {
 					h.mu.Lock()
 					last := h.hist[len(h.hist)-1]
 					h.mu.Unlock()
@@ -498,6 +560,23 @@ func Run(sc *Scenario, r *sched.Run) *Outcome {
 	} else {
 		wg.Wait()
 	}
+	// every scan goroutine has finished by now (it is a thread of the execution /
+	// the channel gets closed): collect what the helpers received
+	h.mu.Lock()
+	pend := h.async
+	h.mu.Unlock()
+	for _, a := range pend {
+		out := ""
+		select {
+		case <-a.done:
+			out = strings.Join(a.res, ",")
+		case <-time.After(20 * time.Second):
+			out = "error:the channel of SeekAsync was not closed"
+		}
+		h.mu.Lock()
+		h.hist = append(h.hist, rec{client: a.client, op: a.op, call: a.call, ret: a.ret, out: out, drained: h.clock.Add(1)})
+		h.mu.Unlock()
+	}
 	for _, o := range sc.Final {
 		h.do(0, o)
 	}
@@ -516,6 +595,7 @@ func Scenarios() []*Scenario {
 	put := func(k, v string) Op { return Op{Kind: "put", Key: k, Val: v} }
 	del := func(k string) Op { return Op{Kind: "del", Key: k} }
 	seek := func(p string) Op { return Op{Kind: "seek", Pfx: p} }
+	sa := func(p string) Op { return Op{Kind: "seekasync", Pfx: p} }
 	batch := func(kv ...string) Op {
 		m := map[string]string{}
 		for i := 0; i < len(kv); i += 2 {
@@ -590,6 +670,34 @@ func Scenarios() []*Scenario {
 				"T4persist": {{Kind: "persist2"}},
 				"T2reader":  {g("ab"), g("a"), seek("")},
 				"T3writer":  {batch("ab", "ab1", "a", ""), put("a", "a2")},
+			}, Final: final},
+		// round 3: SeekAsync as a thread body. The call is the operation (the layer's own
+		// content is fixed when it returns), the drain is done by a free-running helper.
+		{Name: "seekasync-vs-writer", Class: st, Layers: 1,
+			Bottom: map[string]string{"a": "a0", "abd": "abd0"}, Top: map[string]string{"ab": "ab0", "b": "b0", "abd": ""},
+			Threads: map[string][]Op{
+				"T2scan":   {sa("a"), g("abc"), {Kind: "seekasync", Pfx: "a", Back: true}},
+				"T3writer": {del("ab"), put("abc", "abc1"), batch("a", "a1", "abd", "abd1")},
+			}, Final: final},
+		{Name: "seekasync-vs-persist", Class: ex, Layers: 1,
+			Bottom: map[string]string{"a": "a0", "ab": "ab0"}, Top: map[string]string{"ab": "", "abc": "abc0"},
+			Threads: map[string][]Op{
+				"T1persist": {persist},
+				"T2scan":    {sa("a"), {Kind: "seekasync", Pfx: "", Back: true}},
+				"T5reader":  {seek("a")},
+			}, Final: final},
+		{Name: "seekasync-vs-writer-persist", Class: st, Layers: 1,
+			Bottom: map[string]string{"a": "a0"}, Top: map[string]string{"ab": "ab0"},
+			Threads: map[string][]Op{
+				"T1persist": {persist},
+				"T2scan":    {sa("a"), g("ab")},
+				"T3writer":  {batch("ab", "", "abc", "abc1"), put("a", "a1")},
+			}, Final: final},
+		{Name: "seekasync-two-layers-writer", Class: st, Layers: 2,
+			Bottom: map[string]string{"a": "a0"}, Middle: map[string]string{"ab": "ab0", "a": ""}, Top: map[string]string{"abc": "abc0", "ab": "ab1"},
+			Threads: map[string][]Op{
+				"T2scan":   {sa("a"), sa("")},
+				"T3writer": {put("a", "a2"), del("abc"), put("ab", "ab2")},
 			}, Final: final},
 	}
 	return scs
